@@ -362,6 +362,25 @@ def redeclare_scenario(spec, prop, R, batch, stats):
         b.dispose()
 
 
+class _Collect:
+    def __init__(self):
+        self.items = []
+
+    def trace(self, tid, evs, cfg=None):
+        self.items.append((tid, evs, cfg))
+
+
+def _job(args):
+    kind, spec, prop, tier, seed = args
+    R = rng(seed, f"syn{prop}/{kind}/{spec['id']}")
+    c, st = _Collect(), {"events": 0}
+    if kind == "grammar":
+        run_grammar(spec, prop, R, tier, c, st)
+    else:
+        redeclare_scenario(spec, prop, R, c, st)
+    return c.items, st
+
+
 def main():
     ap = argparse.ArgumentParser()
     ap.add_argument("--out", required=True)
@@ -378,14 +397,21 @@ def main():
     if a.tier != "quick":
         n *= 12
     specs += GR.family(R, n, FEATS_ALL)
-    for spec in specs:
-        run_grammar(spec, a.prop, R, a.tier, batch, stats)
+    jobs = [("grammar", spec) for spec in specs]
     if a.prop in ("C01", "C02", "C11"):
-        for spec in GR.POSTPONED:
-            run_grammar(spec, a.prop, R, a.tier, batch, stats)
+        jobs += [("grammar", spec) for spec in GR.POSTPONED]
     if a.prop in ("C01", "C02"):
-        for spec in [x for x in specs if "source" not in x][: (14 if a.tier == "quick" else 120)]:
-            redeclare_scenario(spec, a.prop, R, batch, stats)
+        jobs += [("redeclare", spec) for spec in [x for x in specs if "source" not in x][: (14 if a.tier == "quick" else 120)]]
+    # one job per grammar, each with its own random stream (derived from the seed and the grammar's id), run in worker
+    # processes; results are collected in submission order, so the batch does not depend on scheduling
+    import concurrent.futures as cf
+    work = [(kind, spec, a.prop, a.tier, a.seed) for kind, spec in jobs]
+    nworkers = 4 if a.tier == "quick" else 14
+    with cf.ProcessPoolExecutor(max_workers=nworkers) as ex:
+        for items, st in ex.map(_job, work, chunksize=1):
+            for tid, evs, cfg in items:
+                batch.trace(tid, evs, cfg)
+            stats["events"] += st["events"]
     batch.traces = finalize(batch.traces)
     paths = batch.shards(a.out, a.shards)
     write_summary(a.out, {"batches": paths, "traces": len(batch.traces), "events": stats["events"]})
